@@ -96,6 +96,7 @@ public:
     QString arg(long long v) const { return arg(QString(std::to_string(v))); }
     QString arg(double v) const { char b[64]; std::snprintf(b, sizeof b, "%g", v); return arg(QString(b)); }
     static QString number(int v) { return QString(std::to_string(v)); }
+    static QString number(double v) { char b[64]; std::snprintf(b, sizeof b, "%g", v); return QString(b); }
 private:
     std::string d_;
 };
